@@ -96,7 +96,7 @@ class Case:
             l.append("validator " + self.validator)
         if self.printer:
             l.append("printer 1")
-        for k in ("highlight", "signals", "paste", "helper_panic_at", "auto_add", "printers", "max_hist"):
+        for k in ("highlight", "signals", "paste", "helper_panic_at", "auto_add", "printers", "printers_late", "max_hist"):
             if k in self.meta:
                 l.append("%s %s" % (k, self.meta[k]))
         for ks, cmd in self.binds:
@@ -397,8 +397,11 @@ def gen_vi_ops(rng, text=None):
         if op == "c":
             ks += [rng.choice(["X", "é"]), "Esc"]
         r = rng.random()
-        if op == "y" and r < 0.7:
+        if op == "y" and r < 0.5:
             ks.append(rng.choice(["p", "P"]))
+        elif op == "y" and r < 0.8:
+            # repeat the yank itself ( . after y<motion> ), with or without a new count, then put what it yanked
+            ks += ([rng.choice("23")] if rng.random() < 0.3 else []) + ["."] + ([rng.choice(["p", "P"])] if rng.random() < 0.6 else [])
         elif r < 0.3:
             ks.append(rng.choice(["p", "P", "u", "."]))
         elif r < 0.5:
@@ -548,6 +551,10 @@ def c13_cases(tier, seed):
 CAND_POOL = ["foo", "foobar", "foo bar", "fo", "f", "food", "é", "éa", "日本", "ba", "bar", "baz", "", "x y", "abc", "abd"]
 
 
+# candidates about as wide as (or wider than) a narrow window: the listing's column arithmetic
+WIDE_CANDS = ["foo_" + "x" * 28, "foo_" + "y" * 15, "b" * 19, "\u65e5" * 10, "fo" + "\u00e9" * 27, "a" * 11, "foo_" + "z" * 29]
+
+
 def c14_cases(tier, seed):
     rng = random.Random(seed * 401 + 9)
     n = 4000 if tier == "thorough" else 260
@@ -562,6 +569,10 @@ def c14_cases(tier, seed):
         elif r0 < 0.33:
             # unfiltered script: candidates that do not extend the word (shorter, unrelated, empty)
             cands = ["*"] + rng.sample(CAND_POOL + ["w", "ab c"], rng.choice([1, 2, 2, 3, 4]))
+        wide = False
+        if cands and cands[0] != "*" and len(cands) < 50 and rng.random() < 0.15:
+            cands = cands + rng.sample(WIDE_CANDS, rng.choice([1, 2]))
+            wide = True
         keys = []
         for _ in range(rng.randint(2, 12)):
             r = rng.random()
@@ -583,7 +594,7 @@ def c14_cases(tier, seed):
         keys.append("Enter")
         cases.append(Case(keys, mode=mode, completion=ct, cands=cands, initial=mk_initial(rng, 0.3, ["f", "o", " ", "b", "a", "é"]),
                           timeout=0 if mode == "vi" else rng.choice(["none", 0]), prompt=rng.choice(["> ", "日> "]),
-                          cols=rng.choice([80, 80, 30])))
+                          cols=rng.choice([20, 12, 32, 33, 34]) if wide else rng.choice([80, 80, 30])))
     return cases
 
 
@@ -942,6 +953,10 @@ def c17_cases(tier, seed):
         else:
             base = gen_emacs(rng, rng.randint(4, 20), True, extra=("Tab", "C-r", "C-g", "Esc", "C-z", "C-l")) if mode == "emacs" \
                 else gen_vi(rng, rng.randint(4, 20), True)
+            if mode == "vi" and rng.random() < 0.3:
+                # operator scripts (counts on both sides, char searches, put / undo / repeat after each operator) on typed text
+                t = " ".join(rng.choice(["a", "bb", "c,d", "é日", "x_y"]) for _ in range(rng.randint(3, 7)))
+                base = list(t) + gen_vi_ops(rng, t)[:-1]
             chunks, keys = [], []
             for kk in base:
                 chunks.append(key_bytes(kk))
@@ -971,6 +986,19 @@ def c17_cases(tier, seed):
                  validator=("brackets" if helper and rng.random() < 0.3 else "none"),
                  completion=rng.choice(["circular", "list"]), cols=rng.choice([80, 80, 20]), meta=meta)
         cases.append(c)
+    # the candidate listing in a window about as narrow as the widest candidate (also narrowed by a resize while listing)
+    for k in range(n // 10):
+        mode = rng.choice(["emacs", "emacs", "vi"])
+        cands = rng.sample(WIDE_CANDS, rng.choice([1, 2, 3])) + rng.sample(["foo", "foobar", "fo", "ba", "bar"], 2)
+        keys = [rng.choice(["f", "b", "a", "fo"])]
+        keys = list(keys[0]) + ["Tab", "Tab"] + [rng.choice(["y", "n", " ", "Tab", "x"])] + ["Tab"] * rng.randint(0, 2) + ["Enter", "Enter"]
+        chunks = [key_bytes(kk) for kk in keys]
+        cols = rng.choice([80, 40, 34, 33, 32, 31, 20, 19, 12, 5])
+        meta = {}
+        if rng.random() < 0.4:
+            meta["events"] = {rng.randrange(1, len(chunks) - 2): [("winch", rng.choice([33, 32, 20, 10, 3]))]}
+        cases.append(Case(keys, mode=mode, timeout=0 if mode == "vi" else rng.choice(["none", 0]), prompt="> ", reads=2,
+                          chunks=chunks, helper=True, cands=cands, completion="list", cols=cols, meta=meta))
     for k in range(n // 8):
         mode = rng.choice(["emacs", "emacs", "vi"])
         prompt = rng.choice(["> ", "", "ab> "])
